@@ -18,8 +18,11 @@ EXPLANATION = (
     "rules never become generic (return before any insertion when plain_css_selector() is None); "
     "(5) key extraction uses the Unicode-aware fast-path regex and falls back to escape decoding."
     ' Later additions: every generic rule of a FilterSet reaches the cache (no de-duplication in the entry points, C01.9); a rejected load leaves the stores untouched (C10.2); the bucket loops visit every selector.'
+    ' Round 6: the three regex literals of key_from_selector are compared, as automata, with the CSS grammar (identifier characters; hex escape = 1-6 digits and one optional space); the hex value is read from the digits; every Some(key) is built from a Regex::find match; None is answered only under modelled conditions; the stores are probed with the names as given.'
 )
-NOT_DECIDED = "CSS-escape decoding over all identifier spellings (value level)."
+NOT_DECIDED = ("The concatenation of decoded pieces in key_from_selector's loop (value level); the grammar of the three regex "
+               "literals and the hex conversion are decided, code points CSS maps to U+FFFD (0, surrogates, > 10FFFF) are sent "
+               "to the always-applied set instead.")
 
 CF = "cosmetic_filter_cache::CosmeticFilterCache::"
 STORES = ["simple_class_rules", "complex_class_rules", "simple_id_rules", "complex_id_rules",
@@ -70,7 +73,7 @@ def rule_partition(run, F, cfg):
     f = F.fn(CF + "add_generic_filter")
     run.touched(f)
     paths = [p for p in enumerate_paths(f) if p.end == "return"]
-    n = 0
+    kinds = set()
     seen = set()
     for p in paths:
         d = {}
@@ -98,7 +101,9 @@ def rule_partition(run, F, cfg):
         if label in seen:
             continue
         seen.add(label)
-        n += 1
+        # (whether the complex bucket already existed is not a decision of the partition: `entry().or_default()`
+        # has no such branch)
+        kinds.add(label.rsplit("|bucket=", 1)[0])
         if not plain_some:
             run.ob("C17.4.procedural-never-generic", label, not stores,
                    f"a rule without a plain CSS selector is inserted into no generic store (stores: {stores})",
@@ -121,7 +126,7 @@ def rule_partition(run, F, cfg):
                f"class/id lookup or the per-site resources, never neither)",
                site=f.loc(p.blocks[-1]), config=cfg,
                detail="a `.`/`#` selector whose key cannot be extracted is silently dropped" if not stores else "")
-    run.floor("C17.1.partition", f"distinct decision paths of add_generic_filter [{cfg}]", n, 9)
+    run.floor("C17.1.partition", f"distinct decision paths of add_generic_filter [{cfg}]", len(kinds), 8)
 
 
 def rule_prefix(run, F, cfg):
@@ -152,6 +157,21 @@ def rule_prefix(run, F, cfg):
                 st.add(m.group(1) or m.group(2))
         if st & set(STORES):
             pairs[c.name] = (tm, st & set(STORES))
+    # the stores are probed with the names exactly as they were passed in (the page reports the names of its
+    # elements; trimming, re-casing or stripping a leading `.`/`#` maps different names onto one)
+    keys = []
+    for c in cls:
+        if c.name not in pairs:
+            continue
+        for b, t in c.calls(r"::(contains|get)$"):
+            if re.search(r"up:self\.(\w+)", c.expr_operand(t["args"][0])) and (set(STORES) & set(re.findall(r"up:self\.(\w+)", c.expr_operand(t["args"][0])))):
+                keys.append(c.expr_operand(t["args"][1]))
+    ok_k = len(keys) >= 4 and all(re.match(r"^std::convert::AsRef::as_ref\(arg:\w+\)$", x) for x in keys)
+    run.ob("C17.2.prefix-agreement", "reader-probes-with-the-given-names", ok_k,
+           f"every probe of the class / id stores uses `<name>.as_ref()` itself as the key ({sorted(set(keys))})",
+           site=h.loc(0), config=cfg,
+           detail="a name that is normalised before the lookup (trimmed, a leading `.`/`#` stripped) is answered with the "
+                  "rules of a different name")
     ok_c = any(tm == {'b"\\x01.\\xc0\\x00"'} and st == {"simple_class_rules", "complex_class_rules"} for tm, st in pairs.values())
     ok_i = any(tm == {'b"\\x01#\\xc0\\x00"'} and st == {"simple_id_rules", "complex_id_rules"} for tm, st in pairs.values())
     run.ob("C17.2.prefix-agreement", "reader-class-template", ok_c,
@@ -222,11 +242,63 @@ def rule_key(run, F, cfg):
         for c in [g for n2, g in F.fns.items() if n2.startswith(f"cosmetic_filter_cache::key_from_selector::{nme}::{{closure")]:
             for b, t in c.calls(r"^regex::Regex::new$"):
                 lit[nme] = c.expr_operand(t["args"][0])
-    run.ob("C17.5.key-extraction", "fast-path-regex", lit.get("RE_PLAIN_SELECTOR") == '"^[#.][\\\\w\\\\\\\\-]+"',
-           f"the fast path of key_from_selector is the Unicode-aware regex ^[#.][\\w\\\\-]+ "
-           f"(found {lit.get('RE_PLAIN_SELECTOR')}); an ASCII-only scan truncates or drops non-ASCII identifiers",
-           site=k.loc(0), config=cfg)
+    from analysis.a7 import regex_equivalent
+    # the three literals, compared as automata with their reference spelling (CSS Syntax: an identifier is made of
+    # word characters, `-` and escapes; a hex escape is 1-6 hex digits optionally followed by ONE space that belongs to
+    # the escape; any other escaped character stands for itself)
+    REF = {"RE_PLAIN_SELECTOR": ('"^[#.][\\\\w\\\\\\\\-]+"', "fast-path-regex",
+                                 "the Unicode-aware ^[#.][\\w\\\\-]+ (an ASCII-only scan truncates non-ASCII identifiers)"),
+           "RE_PLAIN_SELECTOR_ESCAPED": ('"^[#.](?:\\\\\\\\[0-9A-Fa-f]{1,6} ?|\\\\\\\\.|\\\\w|-)+"', "escaped-key-regex",
+                                         "^[#.](?:\\\\[0-9A-Fa-f]{1,6} ?|\\\\.|\\w|-)+"),
+           "RE_ESCAPE_SEQUENCE": ('"\\\\\\\\([0-9A-Fa-f]{1,6} ?|.)"', "escape-regex-is-css-escape",
+                                  "\\\\([0-9A-Fa-f]{1,6} ?|.): a hex escape needs no trailing space and has at most six digits")}
+    for nme, (ref, inst, text) in REF.items():
+        okx, why = regex_equivalent(lit.get(nme, '""'), ref)
+        run.ob("C17.5.key-extraction", inst, okx,
+               f"{nme} of key_from_selector behaves like {text} (found {lit.get(nme)}; {why})",
+               site=k.loc(0), config=cfg,
+               detail="a selector such as `.\\32xl\\:grid` (class `2xl:grid`) or `#\\5f-ad` is keyed under a name the "
+                      "page never reports when the escape is decoded differently from CSS: the rule is then reachable "
+                      "neither by the class/id lookup nor through the per-site resources" if not okx else "")
     fd = k.calls(r"^regex::Regex::find$")
     ok = any("RE_PLAIN_SELECTOR" in k.expr_operand(t["args"][0]) and k.expr_operand(t["args"][1]) == "arg:selector" for b, t in fd)
     run.ob("C17.5.key-extraction", "uses-fast-path", ok,
            "key_from_selector applies RE_PLAIN_SELECTOR.find(selector)", config=cfg)
+    # the value of a hex escape is read from its digits (the optional space stripped), base 16
+    fr = [k.expr_call(t) for b, t in k.calls(r"^core::num::from_str_radix$")]
+    okh = len(fr) == 1 and bool(re.search(r"core::str::strip_suffix\(.*, ' '\)", fr[0])) and fr[0].endswith(", 16)")
+    hexd = [c.expr_local(0) for c in F.closures_of(k.name) if "is_ascii_hexdigit" in c.expr_local(0)]
+    run.ob("C17.5.key-extraction", "hex-value-from-digits", okh and len(hexd) == 1,
+           f"the code point of a hex escape is from_str_radix(<capture without its trailing space>, 16), taken only for "
+           f"captures that consist of hex digits ({[x[:100] for x in fr]}; digit test {hexd})", site=k.loc(0), config=cfg)
+    # every key handed back is cut out by one of the regexes ...
+    from analysis.guards import conditional_defs as _cd
+    defs = _cd(k, 0)
+    somes = [(b, val) for kind, b, val, conds, _ in defs if "Option::Some" in val]
+    oks = bool(somes) and all("regex::Regex::find(" in val for b, val in somes)
+    run.ob("C17.5.key-extraction", "keys-come-from-the-regexes", oks and len(somes) >= 2,
+           f"each of the {len(somes)} `Some(key)` results of key_from_selector is built from a Regex::find match "
+           f"(no second, hand-written scan decides where an identifier ends)", site=k.loc(0), config=cfg)
+    # ... and a selector is given up (None -> always-applied selectors) only for the modelled reasons
+    MODELLED = (r"^discr\(regex::Regex::find\(static:cosmetic_filter_cache::key_from_selector::RE_PLAIN_SELECTOR(_ESCAPED)?, arg:selector\)\)$",
+                r"^std::option::Option::is_(none|some)\(memchr::memchr\(92, ",
+                r"^discr\(<regex::CaptureMatches<'r, 'h> as std::iter::Iterator>::next\(regex::Regex::captures_iter\(",
+                r"^discr\(std::result::Result::ok\(core::num::from_str_radix\(",
+                r"^discr\(std::char::from_u32\(",
+                r"^core::str::is_empty\(", r"^<std::str::Bytes<'_> as std::iter::Iterator>::all\(core::str::bytes\(",
+                r"^discr\(core::str::strip_suffix\(")
+    stray = []
+    nn = 0
+    for kind, b, val, conds, _ in defs:
+        if "Option::Some" in val:
+            continue
+        nn += 1
+        for e in conds:
+            if not any(re.search(rx, e) for rx in MODELLED):
+                stray.append(e[:120])
+    run.ob("C17.5.key-extraction", "given-up-only-for-modelled-reasons", nn >= 3 and not stray,
+           f"the {nn} ways key_from_selector answers None depend only on: no identifier at the start, a backslash "
+           f"present, the escaped form not matching, a hex value that is not a code point; other conditions: {sorted(set(stray))[:3]}",
+           site=k.loc(0), config=cfg,
+           detail="an extra length / shape test in front of the decoding sends selectors it misjudges to the "
+                  "always-applied set and makes them unreachable by name")
